@@ -500,14 +500,20 @@ func Forall(vars []*Term, body *Term) *Term {
 	if body.IsTrue() {
 		return True
 	}
-	if len(vars) == 1 && vars[0].Sort == SInt {
-		if off := indexOffsetOf(vars[0], body); off != nil {
-			j := Fresh(vars[0].Name+"_a", SInt)
-			body = Subst(body, map[*Term]*Term{vars[0]: Sub(j, off)})
-			vars = []*Term{j}
+	// each integer variable that is only ever used as "offset + variable" in array indices is replaced by the
+	// absolute index, so that the instantiation patterns are plain select(a, j) terms
+	nv := append([]*Term{}, vars...)
+	for i, v := range nv {
+		if v.Sort != SInt {
+			continue
+		}
+		if off := indexOffsetOf(v, body); off != nil {
+			j := Fresh(v.Name+"_a", SInt)
+			body = Subst(body, map[*Term]*Term{v: Sub(j, off)})
+			nv[i] = j
 		}
 	}
-	return forallRaw(vars, body)
+	return forallRaw(nv, body)
 }
 
 func forallRaw(vars []*Term, body *Term) *Term {
